@@ -20,34 +20,33 @@ theorem sender_cases :
 
 theorem sender_received : (step q (.sender i sp v)).received = q.received := by
   rcases sender_cases q i sp v with ⟨_, e⟩ | ⟨pc, _, e⟩ <;> rw [e]
-  cases pc <;> simp only [stepSender] <;> (try split) <;> rfl
+  cases pc <;> simp only [stepSender] <;> repeat (first | rfl | split)
 
 theorem sender_released : (step q (.sender i sp v)).released = q.released := by
   rcases sender_cases q i sp v with ⟨_, e⟩ | ⟨pc, _, e⟩ <;> rw [e]
-  cases pc <;> simp only [stepSender] <;> (try split) <;> rfl
+  cases pc <;> simp only [stepSender] <;> repeat (first | rfl | split)
 
 theorem sender_recv : (step q (.sender i sp v)).recv = q.recv := by
   rcases sender_cases q i sp v with ⟨_, e⟩ | ⟨pc, _, e⟩ <;> rw [e]
-  cases pc <;> simp only [stepSender] <;> (try split) <;> rfl
+  cases pc <;> simp only [stepSender] <;> repeat (first | rfl | split)
 
 theorem sender_receivep : (step q (.sender i sp v)).receivep = q.receivep := by
   rcases sender_cases q i sp v with ⟨_, e⟩ | ⟨pc, _, e⟩ <;> rw [e]
-  cases pc <;> simp only [stepSender] <;> (try split) <;> rfl
+  cases pc <;> simp only [stepSender] <;> repeat (first | rfl | split)
 
 theorem sender_qlen : (step q (.sender i sp v)).qlen = q.qlen := by
   rcases sender_cases q i sp v with ⟨_, e⟩ | ⟨pc, _, e⟩ <;> rw [e]
-  cases pc <;> simp only [stepSender] <;> (try split) <;> rfl
+  cases pc <;> simp only [stepSender] <;> repeat (first | rfl | split)
 
 theorem sender_claimed_le : q.claimed ≤ (step q (.sender i sp v)).claimed := by
   rcases sender_cases q i sp v with ⟨_, e⟩ | ⟨pc, _, e⟩ <;> rw [e]
   · exact Nat.le_refl _
-  · cases pc <;> simp only [stepSender] <;> (try split) <;> simp
+  · cases pc <;> simp only [stepSender] <;> repeat (first | exact Nat.le_refl _ | exact Nat.le_succ _ | split)
 
 theorem sender_sent_mono (k : Nat) (h : q.sent k = true) : (step q (.sender i sp v)).sent k = true := by
   rcases sender_cases q i sp v with ⟨_, e⟩ | ⟨pc, _, e⟩ <;> rw [e]
   · exact h
-  · cases pc <;> simp only [stepSender] <;> (try split) <;> (try exact h)
-    rfl
+  · cases pc <;> simp only [stepSender] <;> repeat (first | exact h | rfl | split)
 
 /-- a ticket becomes sent only by the `fetch_or` of the sender that holds it -/
 theorem sender_sent_new (k : Nat) (h : (step q (.sender i sp v)).sent k = true) :
@@ -60,8 +59,8 @@ theorem sender_sent_new (k : Nat) (h : (step q (.sender i sp v)).sent k = true) 
       by_cases hk : k = k'
       · subst hk; exact Or.inr ⟨sl, hpc⟩
       · simp only [hk, if_false] at h; exact Or.inl h
-    | idle => simp only [stepSender] at h; exact Or.inl h
-    | failed => simp only [stepSender] at h; exact Or.inl h
+    | idle => simp only [stepSender] at h; split at h <;> exact Or.inl h
+    | loadedFree w => simp only [stepSender] at h; split at h <;> (try split at h) <;> exact Or.inl h
     | gotPerm => simp only [stepSender] at h; exact Or.inl h
     | loaded w => simp only [stepSender] at h; split at h <;> exact Or.inl h
     | hasSlot sl k' => simp only [stepSender] at h; exact Or.inl h
@@ -77,19 +76,19 @@ theorem sender_written (k : Nat) :
       by_cases hk : k = k'
       · subst hk; exact Or.inr ⟨sl, hpc⟩
       · simp only [hk, if_false]; exact Or.inl trivial
-    | idle => simp only [stepSender]; exact Or.inl trivial
-    | failed => simp only [stepSender]; exact Or.inl trivial
+    | idle => simp only [stepSender]; split <;> exact Or.inl rfl
+    | loadedFree w => simp only [stepSender]; split <;> (try split) <;> exact Or.inl rfl
     | gotPerm => simp only [stepSender]; exact Or.inl trivial
     | loaded w => simp only [stepSender]; split <;> exact Or.inl rfl
     | wrote sl k' => simp only [stepSender]; exact Or.inl trivial
 
 theorem sender_senders_length : (step q (.sender i sp v)).senders.length = q.senders.length := by
   rcases sender_cases q i sp v with ⟨_, e⟩ | ⟨pc, _, e⟩ <;> rw [e]
-  cases pc <;> simp only [stepSender] <;> (try split) <;> simp
+  cases pc <;> simp only [stepSender] <;> repeat (first | rfl | exact List.length_set | split)
 
 theorem sender_other (j : Nat) (hj : j ≠ i) : (step q (.sender i sp v)).senders[j]? = q.senders[j]? := by
   rcases sender_cases q i sp v with ⟨_, e⟩ | ⟨pc, _, e⟩ <;> rw [e]
-  cases pc <;> simp only [stepSender] <;> (try split) <;> simp [Ne.symm hj]
+  cases pc <;> simp only [stepSender] <;> repeat (first | rfl | exact List.getElem?_set_ne (Ne.symm hj) | split)
 
 end sender
 
@@ -137,16 +136,25 @@ theorem step_of (pc : SPc) (h : q.senders[i]? = some pc) : step q (.sender i sp 
   simp only [step, h]
 
 theorem step_idle (h : q.senders[i]? = some .idle) :
-    (step q (.sender i sp v)).senders[i]? = some .gotPerm ∨ (step q (.sender i sp v)).senders[i]? = some .failed := by
+    (∃ w, (step q (.sender i sp v)).senders[i]? = some (.loadedFree w)) ∨ (step q (.sender i sp v)).senders[i]? = some .idle := by
   have hl := lt_of_some h
   rw [step_of q i sp v _ h]
-  simp only [stepSender, List.getElem?_set_self hl]
-  split <;> simp
+  simp only [stepSender]
+  split
+  · right; simp only [List.getElem?_set_self hl]
+  · left; exact ⟨q.numFree, by simp only [List.getElem?_set_self hl]⟩
 
-theorem step_failed (h : q.senders[i]? = some .failed) : (step q (.sender i sp v)).senders[i]? = some .idle := by
+theorem step_loadedFree (w : BitVec 8) (h : q.senders[i]? = some (.loadedFree w)) :
+    (step q (.sender i sp v)).senders[i]? = some .gotPerm ∨ (step q (.sender i sp v)).senders[i]? = some .idle
+    ∨ ∃ w', (step q (.sender i sp v)).senders[i]? = some (.loadedFree w') := by
   have hl := lt_of_some h
   rw [step_of q i sp v _ h]
-  simp only [stepSender, List.getElem?_set_self hl]
+  simp only [stepSender]
+  split
+  · left; simp only [List.getElem?_set_self hl]
+  · split
+    · right; left; simp only [List.getElem?_set_self hl]
+    · right; right; exact ⟨q.numFree, by simp only [List.getElem?_set_self hl]⟩
 
 theorem step_gotPerm (h : q.senders[i]? = some .gotPerm) :
     (step q (.sender i sp v)).senders[i]? = some (.loaded q.sendp) := by
